@@ -102,7 +102,7 @@ var u1Exemptions = map[string]func(e *Env) (bool, string){
 		out := gate.Outcome{Kind: gate.ErrNil, Idx: 2}
 		for _, g := range []gate.Gate{
 			gate.Cmp("O.nonneg", tSizeDif, token.GEQ, "const:0"),
-			gate.Cmp("O.zero", tSizeDif, token.EQL, "const:0"),
+			either("O.zero", "fileSize - declaredLength == 0 (or, being non-negative, <= 0)", gate.Cmp("", tSizeDif, token.EQL, "const:0"), gate.Cmp("", tSizeDif, token.LEQ, "const:0")),
 		} {
 			if ok, _ := ctx.Established(ob, out, g); !ok {
 				return false, ""
